@@ -12,12 +12,16 @@
    shape restricted to well-formed combinations. *)
 EXTENDS Integers, Sequences, FiniteSets, TLC, Json
 
-SymKinds == {"fn", "const", "var", "type"}
+SymKinds == {"fn", "const", "var", "type", "enum"}
 Sites == {"own", "cross"}
 Imports == {"direct", "alias", "nested"}
-ValueCtx == {"plain", "paren", "arg", "binop", "cond", "elem", "ret", "closure", "compound", "match", "cast", "write"}
+ValueCtx == {"plain", "paren", "arg", "binop", "cond", "elem", "ret", "closure", "compound", "match", "cast", "write",
+             "range", "rangelo", "index", "unary", "assignrhs", "structinit", "whilecond"}
+(* an enum type is named through its variants (mod::enum::Variant) in value positions, and as a type *)
+EnumCtx == {"variant_init", "variant_arg", "variant_cmp", "variant_match", "variant_ret", "lettype", "param"}
 TypeCtx == {"lettype", "param", "rettype", "fieldtype", "elemtype", "literal"}
 CtxOK(k, c) == CASE k = "type" -> c \in TypeCtx
+                 [] k = "enum" -> c \in EnumCtx
                  [] k = "var" -> c \in ValueCtx
                  [] OTHER -> c \in ValueCtx \ {"write"}
 
@@ -37,7 +41,7 @@ AllowedField(site, op, exported, ctx) == exported \/ op = "literal" \/ (site = "
 
 VARIABLE a
 SymCases == {[fam |-> "sym", kind |-> k, exported |-> e, site |-> s, ctx |-> c, imp |-> i] :
-                k \in SymKinds, e \in BOOLEAN, s \in Sites, c \in ValueCtx \cup TypeCtx, i \in Imports}
+                k \in SymKinds, e \in BOOLEAN, s \in Sites, c \in ValueCtx \cup TypeCtx \cup EnumCtx, i \in Imports}
 FieldCases == {[fam |-> "field", exported |-> e, site |-> s, op |-> o, ctx |-> c, imp |-> i] :
                 e \in BOOLEAN, s \in FieldSites, o \in FieldOps, c \in FieldCtx, i \in Imports}
 Init == a \in {x \in SymCases : CtxOK(x.kind, x.ctx) /\ (x.site = "own" => x.imp = "direct")}
